@@ -206,7 +206,7 @@ int main (int argc, char **argv)
 		else for (blk = 0 ; blk < 256 ; blk++) if (vh_case ("float stratum %u %s", blk, big ? "BE" : "LE")) { vh_distinct (((uint64_t) blk << 8) | big | 0x200000000ULL) ; if (blk == 3) vh_sample ("float bit patterns 0x%08x + i*%u, i < 65536, %s-endian RAW file with SFC_TEST_IEEE_FLOAT_REPLACE", blk << 24, 251, big ? "big" : "little") ; ieee_float_block (blk << 24, 251, big) ; ieee_float_block ((blk << 24) | 0x7f0000, 1, big) ; }
 		for (sgn = 0 ; sgn < 2 ; sgn++) for (e = 0 ; e < 2048 ; e += 128) { int rep, nrep = vh_thorough ? 40 : 4 ; for (rep = 0 ; rep < nrep ; rep++) if (vh_case ("double exponents %d.. sign %d %s rep %d", e, sgn, big ? "BE" : "LE", rep)) { vh_distinct (((uint64_t) e << 16) | ((uint64_t) sgn << 8) | big | ((uint64_t) rep << 40) | 0x300000000ULL) ; ieee_double_block (sgn, e, big) ; } }
 		}
-	{	static const int rates [] = { 8000, 16000, 32000, 48000 } ; int r, ch, kind, nk = vh_thorough ? 600 : 40 ;
+	{	static const int rates [] = { 8000, 16000, 32000, 48000 } ; int r, ch, kind, nk = vh_thorough ? 600 : 150 ;
 		for (r = 0 ; r < 4 ; r++) for (ch = 1 ; ch <= 2 ; ch++) for (kind = 0 ; kind < nk ; kind++)
 		{	if (vh_case ("WAV IMA rate=%d ch=%d pattern=%d", rates [r], ch, kind)) { vh_distinct (0x400000000ULL | (r << 20) | (ch << 16) | kind) ; if (kind == 0 && ch == 2) vh_sample ("WAV IMA ADPCM, rate %d, %d ch (block align %d): 6 blocks overwritten with random/adversarial bytes, decoded by sf_readf_short vs the reference decoder", rates [r], ch, vh_wav_blocksize (rates [r] * ch)) ; adpcm_case (0, SF_FORMAT_WAV, ch, rates [r], kind) ; }
 			if (vh_case ("W64 IMA rate=%d ch=%d pattern=%d", rates [r], ch, kind)) { vh_distinct (0x500000000ULL | (r << 20) | (ch << 16) | kind) ; adpcm_case (0, SF_FORMAT_W64, ch, rates [r], kind) ; }
